@@ -325,9 +325,39 @@ Fixpoint ssh_want (hosts : bool) (items alone : list arg) : option (list (option
       else ssh_want hosts r alone
   end.
 
+(* what the property calls a blank line and a comment line, typed from the Unicode White_Space property
+   (U+0009..U+000D, U+0020, U+0085, U+00A0, U+1680, U+2000..U+200A, U+2028, U+2029, U+202F, U+205F, U+3000)
+   and sshd(8) ("lines starting with '#' and empty lines are ignored"): the labels of the generated layout
+   are checked against it, so that a line the generator calls harmless really is one *)
+Definition ws_cp (n : N) : bool :=
+  ((9 <=? n) && (n <=? 13)) || (n =? 32) || (n =? 133) || (n =? 160) || (n =? 5760) || ((8192 <=? n) && (n <=? 8202))
+  || (n =? 8232) || (n =? 8233) || (n =? 8239) || (n =? 8287) || (n =? 12288).
+Fixpoint spec_ws_only (l : bytes) : bool :=
+  match l with
+  | [] => true
+  | a :: r =>
+      if a <? 128 then ws_cp a && spec_ws_only r else
+      match r with
+      | b :: r2 =>
+          if (192 <=? a) && (a <? 224) then ws_cp ((a - 192) * 64 + (b - 128)) && spec_ws_only r2 else
+          match r2 with
+          | c :: r3 => (224 <=? a) && (a <? 240) && ws_cp ((a - 224) * 4096 + (b - 128) * 64 + (c - 128)) && spec_ws_only r3
+          | [] => false
+          end
+      | [] => false
+      end
+  end.
+Definition spec_labels_ok (items : list arg) : bool :=
+  forallb (fun it =>
+             let k := arg_Z (arg_nth 0 it) in
+             if (k =? 1)%Z then spec_ws_only (arg_bytes (arg_nth 1 it))
+             else if (k =? 2)%Z then spec_ws_only (arg_bytes (arg_nth 1 it)) && negb (existsb (fun c => c =? 10) (arg_bytes (arg_nth 2 it)))
+             else true) items.
+
 Definition check_ssh (hosts : bool) (input impl : arg) : arg :=
   match arg_nth 4 input with
   | AL [AL items; _; _] =>
+      if negb (spec_labels_ok items) then AS "generator: a line labelled blank or comment is not white space only / white space, '#', text" else
       match ssh_want hosts items (arg_list (arg_nth 5 input)) with
       | Some want =>
           both (check_container (if hosts then "known_hosts" else "authorized_keys")%string
